@@ -452,6 +452,16 @@ func (c *SpecCtx) ident(name string) SV {
 	case "MaxInt64":
 		return SV{V: T{"9223372036854775807", "IntLit"}}
 	}
+	if c.fr != nil && strings.Contains(name, "__") {
+		// name__k: the k-th declaration of a local called name in this function
+		i := strings.LastIndex(name, "__")
+		if k, err := strconv.Atoi(name[i+2:]); err == nil {
+			if lst := c.fr.CellsAll[name[:i]]; k < len(lst) && lst[k] != nil {
+				return SV{V: c.st.Cells[lst[k]], T: lst[k].Typ}
+			}
+			return c.bad("no declaration #%d of local %s on this path", k, name[:i])
+		}
+	}
 	if c.fr != nil && strings.Contains(name, "_") {
 		// hidden SSA locals such as rangeint.iter are written rangeint_iter in specs
 		if _, ok := c.fr.Cells[name]; !ok {
@@ -1040,6 +1050,32 @@ func (c *SpecCtx) call(n *ast.CallExpr) SV {
 		t := c.term(n.Args[0])
 		return SV{V: App(BV(32), "(_ extract 31 0)", t), T: types.Typ[types.Uint32]}
 	}
+	// the uninterpreted functions of the reflect specification
+	if so, ok := reflectUF[fn.Name]; ok {
+		var args []T
+		var sorts []Sort
+		for i, a := range n.Args {
+			var t T
+			if i < len(so.args) && so.args[i] == SInt {
+				t = c.intArg(a)
+			} else if i < len(so.args) {
+				t = c.coerceTo(c.eval(a), so.args[i])
+			} else {
+				t = c.coerceScalar(c.eval(a))
+			}
+			args = append(args, t)
+			sorts = append(sorts, t.So)
+		}
+		return SV{V: App(so.res, e.namedFun(fn.Name, sorts, so.res), args...)}
+	}
+	if fn.Name == "rnilable" {
+		k := c.intArg(n.Args[0])
+		var ds []T
+		for _, kk := range []int64{18, 19, 20, 21, 22, 23, 26} {
+			ds = append(ds, Eq(k, IntLit(kk)))
+		}
+		return SV{V: Or(ds...)}
+	}
 	// definitions and ghosts from type blocks
 	if d := e.specDefs[fn.Name]; d != nil {
 		return c.applyDef(d, n)
@@ -1093,6 +1129,22 @@ func (c *SpecCtx) strArg(x ast.Expr) string {
 	}
 	c.e.fail("spec: string literal expected")
 	return ""
+}
+
+type ufSig struct {
+	args []Sort
+	res  Sort
+}
+
+var reflectUF = map[string]ufSig{
+	"rt_kind": {[]Sort{SAny}, SInt}, "rt_numin": {[]Sort{SAny}, SInt}, "rt_numout": {[]Sort{SAny}, SInt},
+	"rt_in": {[]Sort{SAny, SInt}, SAny}, "rt_out": {[]Sort{SAny, SInt}, SAny}, "rt_variadic": {[]Sort{SAny}, SBool},
+	"rt_elem": {[]Sort{SAny}, SAny}, "rt_assignable": {[]Sort{SAny, SAny}, SBool}, "rt_of": {[]Sort{SAny}, SAny},
+	"rt_ptrto": {[]Sort{SAny}, SAny},
+	"rv_valid": {[]Sort{"X_reflect.Value"}, SBool}, "rv_type": {[]Sort{"X_reflect.Value"}, SAny},
+	"rv_isnil": {[]Sort{"X_reflect.Value"}, SBool}, "rv_canset": {[]Sort{"X_reflect.Value"}, SBool},
+	"rv_iface": {[]Sort{"X_reflect.Value"}, SAny}, "rv_of": {[]Sort{SAny}, "X_reflect.Value"},
+	"rv_elem": {[]Sort{"X_reflect.Value"}, "X_reflect.Value"},
 }
 
 // SpecDef: `def name(params) = expr` in a type block.
